@@ -411,6 +411,14 @@ theorem bytesPoly_append_singleton (w : Bytes) (b : UInt8) :
 
 /-! ## Part 4: the tables and one `slide` step -/
 
+theorem outT_getD (poly : UInt64) {i : Nat} (h : i < 256) :
+    (Tables.mk' 6 poly).outT.getD i 0 = outEntry 64 poly i := by
+  simp [Tables.mk', Array.getD_eq_getD_getElem?, h]
+
+theorem modT_getD (poly : UInt64) {i : Nat} (h : i < 256) :
+    (Tables.mk' 6 poly).modT.getD i 0 = modEntry poly i := by
+  simp [Tables.mk', Array.getD_eq_getD_getElem?, h]
+
 /-- Split a number at bit `d`. -/
 theorem split_at (x d : Nat) : x = (x >>> d) <<< d ^^^ x % 2 ^ d := by
   apply Nat.eq_of_testBit_eq
@@ -427,6 +435,7 @@ section
 variable {poly : UInt64} (hp : poly ≠ 0) (hd : poly.toNat.log2 ≤ 56)
 include hp hd
 
+omit hd in
 theorem degree_poly : degree poly = (poly.toNat.log2 : Int) := by
   have hp' : poly.toNat ≠ 0 := fun h' => hp ((toNat_eq_zero_iff poly).mp h')
   rw [degree_eq]; simp [pdeg, hp']
@@ -459,7 +468,7 @@ theorem modEntry_toNat (t : Nat) (ht : t < 256) :
       (modEntry poly t).toNat = t <<< poly.toNat.log2 ^^^ r := by
   have ht' : t < 2 ^ 8 := ht
   have hk : ((degree poly).toNat.toUInt64).toNat % 64 = poly.toNat.log2 := by
-    rw [degree_poly hp hd, Nat.toUInt64_eq, UInt64.toNat_ofNat']
+    rw [degree_poly hp, Nat.toUInt64_eq, UInt64.toNat_ofNat']
     simp only [Int.toNat_natCast]; omega
   have htn : t.toUInt64.toNat = t := by
     rw [Nat.toUInt64_eq, UInt64.toNat_ofNat']; omega
@@ -483,7 +492,7 @@ theorem slide_step (hlo : 8 ≤ poly.toNat.log2) {h : UInt64} (hh : h.toNat < 2 
   -- the table index is the top byte of `h·x⁸ + b`
   have hshift : (Tables.mk' 6 poly).shift.toNat % 64 = poly.toNat.log2 - 8 := by
     show (((degree poly) - 8).toNat.toUInt64).toNat % 64 = _
-    rw [degree_poly hp hd, Nat.toUInt64_eq, UInt64.toNat_ofNat']
+    rw [degree_poly hp, Nat.toUInt64_eq, UInt64.toNat_ofNat']
     omega
   have hT : h.toNat >>> (poly.toNat.log2 - 8) < 2 ^ 8 := by
     rw [Nat.shiftRight_eq_div_pow, Nat.div_lt_iff_lt_mul (Nat.two_pow_pos _), ← Nat.pow_add]
@@ -494,9 +503,7 @@ theorem slide_step (hlo : 8 ≤ poly.toNat.log2) {h : UInt64} (hh : h.toNat < 2 
     have : (255 : UInt64).toNat = 2 ^ 8 - 1 := by decide
     rw [this, Nat.and_two_pow_sub_one_eq_mod, Nat.mod_eq_of_lt hT]
   have hget : (Tables.mk' 6 poly).modT.getD (h.toNat >>> (poly.toNat.log2 - 8)) 0
-      = modEntry poly (h.toNat >>> (poly.toNat.log2 - 8)) := by
-    have : h.toNat >>> (poly.toNat.log2 - 8) < 256 := hT
-    simp [Tables.mk', Array.getD_eq_getD_getElem?, this]
+      = modEntry poly (h.toNat >>> (poly.toNat.log2 - 8)) := modT_getD poly hT
   rw [hmi, hget]
   obtain ⟨r, hr, hrc, hre⟩ := modEntry_toNat hp hd _ hT
   -- top byte of X
@@ -529,6 +536,159 @@ theorem slide_step (hlo : 8 ≤ poly.toNat.log2) {h : UInt64} (hh : h.toNat < 2 
     exact (Cong.refl _ _).xor hrc
   · exact Nat.xor_lt_two_pow hlo' hr
 
+/-- Removing the oldest byte: for a full window `v :: w`, xoring `outT[v]` turns the fingerprint of
+`v :: w` into the fingerprint of `w`. -/
+theorem drop_oldest (v : UInt8) (w : Bytes) :
+    hashBlock poly (v :: w) ^^^ outEntry (w.length + 1) poly v.toNat = hashBlock poly w := by
+  have hv : v.toNat < 2 ^ 64 :=
+    Nat.lt_of_lt_of_le v.toNat_lt (by decide)
+  obtain ⟨ho1, ho2⟩ := outEntry_spec hp hd (w.length + 1) v.toNat hv
+  apply hashBlock_unique hp hd
+  · rw [UInt64.toNat_xor]; exact Nat.xor_lt_two_pow (hashBlock_lt hp hd _) ho1
+  · rw [UInt64.toNat_xor]
+    have h1 := (hashBlock_cong hp hd (v :: w)).xor ho2
+    rw [bytesPoly_cons, Nat.add_sub_cancel, Nat.xor_comm (v.toNat <<< (8 * w.length)), Nat.xor_assoc,
+      Nat.xor_self, Nat.xor_zero] at h1
+    exact h1
+
 end
+
+/-! ## Part 5: circular buffer = queue, and the main theorem -/
+
+/-- The window content, oldest byte first. -/
+def winList (s : R64) : Bytes := s.win.toList.drop s.idx ++ s.win.toList.take s.idx
+
+theorem winList_slide (t : Tables) (s : R64) (b : UInt8) (hsz : s.win.size = t.wsize)
+    (hi : s.idx < t.wsize) :
+    ∃ rest, winList s = s.win.getD s.idx 0 :: rest ∧ winList (slide t s b) = rest ++ [b] ∧
+      (slide t s b).win.size = t.wsize ∧ (slide t s b).idx < t.wsize := by
+  have hlen : s.win.toList.length = t.wsize := by rw [Array.length_toList, hsz]
+  have hi' : s.idx < s.win.toList.length := by omega
+  refine ⟨s.win.toList.drop (s.idx + 1) ++ s.win.toList.take s.idx, ?_, ?_, ?_, ?_⟩
+  · unfold winList
+    rw [List.drop_eq_getElem_cons hi', Array.getElem_toList]
+    have : s.win.getD s.idx 0 = s.win[s.idx]'(by omega) := by
+      simp [Array.getD_eq_getD_getElem?, hsz, hi]
+    rw [this]; rfl
+  · unfold winList slide
+    simp only [Array.toList_setIfInBounds]
+    rw [List.set_eq_take_append_cons_drop, if_pos hi']
+    have hA : (s.win.toList.take s.idx).length = s.idx := by
+      rw [List.length_take]; omega
+    have hsplit : List.take s.idx s.win.toList ++ b :: List.drop (s.idx + 1) s.win.toList
+        = (List.take s.idx s.win.toList ++ [b]) ++ List.drop (s.idx + 1) s.win.toList := by simp
+    by_cases hw : s.idx + 1 < t.wsize
+    · have hmod : (s.idx + 1) % t.wsize = s.idx + 1 := Nat.mod_eq_of_lt hw
+      have hAb : (List.take s.idx s.win.toList ++ [b]).length = s.idx + 1 := by simp [hA]
+      rw [hmod, hsplit, List.drop_left' hAb, List.take_left' hAb, List.append_assoc]
+    · have hw' : s.idx + 1 = t.wsize := by omega
+      have hmod : (s.idx + 1) % t.wsize = 0 := by rw [hw', Nat.mod_self]
+      have hD : List.drop (s.idx + 1) s.win.toList = [] := by
+        apply List.drop_of_length_le; omega
+      rw [hmod, hD]; simp
+  · simp [slide, hsz]
+  · simp only [slide]; exact Nat.mod_lt _ (by omega)
+
+theorem hashBlock_append_singleton (poly : UInt64) (w : Bytes) (b : UInt8) :
+    hashBlock poly (w ++ [b]) = modulo ((hashBlock poly w <<< 8) ||| b.toUInt64) poly := by
+  simp [hashBlock, List.foldl_append]
+
+theorem hashBlock_zeros (poly : UInt64) (hp : poly ≠ 0) (k : Nat) (l : Bytes) :
+    hashBlock poly (List.replicate k 0 ++ l) = hashBlock poly l := by
+  unfold hashBlock
+  rw [List.foldl_append]
+  congr 1
+  induction k with
+  | zero => rfl
+  | succ k ih =>
+    rw [List.replicate_succ, List.foldl_cons]
+    have e : ((0 : UInt64) <<< 8 ||| (0 : UInt8).toUInt64) = 0 := by decide
+    rw [e, modulo_of_lt hp (by simpa using Nat.two_pow_pos _)]
+    exact ih
+
+section
+variable {poly : UInt64} (hp : poly ≠ 0) (hlo : 8 ≤ poly.toNat.log2) (hd : poly.toNat.log2 ≤ 56)
+include hp hlo hd
+
+/-- The invariant of the rolling hash: the hash is the fingerprint of the window content. -/
+def Inv (poly : UInt64) (s : R64) : Prop :=
+  s.win.size = 64 ∧ s.idx < 64 ∧ s.hash = hashBlock poly (winList s)
+
+omit hp hlo hd in
+theorem winList_length {s : R64} (h : s.win.size = 64) (hi : s.idx < 64) : (winList s).length = 64 := by
+  unfold winList
+  rw [List.length_append, List.length_drop, List.length_take, Array.length_toList, h]; omega
+
+theorem inv_slide (s : R64) (b : UInt8) (h : Inv poly s) :
+    Inv poly (slide (Tables.mk' 6 poly) s b) ∧
+    winList (slide (Tables.mk' 6 poly) s b) = (winList s).tail ++ [b] := by
+  obtain ⟨hsz, hi, hh⟩ := h
+  obtain ⟨rest, h1, h2, h3, h4⟩ := winList_slide (Tables.mk' 6 poly) s b hsz hi
+  have hlen := winList_length hsz hi
+  have hrl : rest.length + 1 = 64 := by rw [h1] at hlen; simpa using hlen
+  refine ⟨⟨h3, h4, ?_⟩, by rw [h1, h2]; rfl⟩
+  rw [h2, hashBlock_append_singleton]
+  have hv : (s.win.getD s.idx 0).toNat < 256 := (s.win.getD s.idx 0).toNat_lt
+  have hout : (Tables.mk' 6 poly).outT.getD (s.win.getD s.idx 0).toNat 0
+      = outEntry 64 poly (s.win.getD s.idx 0).toNat := outT_getD poly hv
+  have hdrop : s.hash ^^^ (Tables.mk' 6 poly).outT.getD (s.win.getD s.idx 0).toNat 0
+      = hashBlock poly rest := by
+    rw [hout, hh, h1, ← hrl]
+    exact drop_oldest hp hd _ rest
+  show ((s.hash ^^^ (Tables.mk' 6 poly).outT.getD (s.win.getD s.idx 0).toNat 0) <<< 8 ||| b.toUInt64) ^^^
+    (Tables.mk' 6 poly).modT.getD
+      (((s.hash ^^^ (Tables.mk' 6 poly).outT.getD (s.win.getD s.idx 0).toNat 0) >>>
+        (Tables.mk' 6 poly).shift) &&& 255).toNat 0 = _
+  rw [hdrop]
+  exact slide_step hp hd hlo (hashBlock_lt hp hd rest) b
+
+omit hlo hd in
+theorem inv_reset : Inv poly (reset (Tables.mk' 6 poly)) ∧
+    winList (reset (Tables.mk' 6 poly)) = List.replicate 64 0 := by
+  have hw : winList (reset (Tables.mk' 6 poly)) = List.replicate 64 0 := by
+    simp [winList, reset, Tables.mk']
+  refine ⟨⟨by simp [reset, Tables.mk'], by simp [reset], ?_⟩, hw⟩
+  rw [hw]
+  have := hashBlock_zeros poly hp 64 []
+  rw [List.append_nil] at this
+  rw [this]; rfl
+
+theorem inv_fold (bs : Bytes) : ∀ s, Inv poly s →
+    Inv poly (bs.foldl (slide (Tables.mk' 6 poly)) s) ∧
+    winList (bs.foldl (slide (Tables.mk' 6 poly)) s) = (winList s ++ bs).drop bs.length := by
+  induction bs with
+  | nil => intro s h; exact ⟨h, by simp⟩
+  | cons b bs ih =>
+    intro s h
+    obtain ⟨h1, h2⟩ := inv_slide hp hlo hd s b h
+    obtain ⟨h3, h4⟩ := ih _ h1
+    refine ⟨h3, ?_⟩
+    rw [List.foldl_cons, h4, h2]
+    have hlen := winList_length h.1 h.2.1
+    match hw : winList s, hlen with
+    | x :: w, _ => simp
+
+/-- General form of T1 (any modulus of degree 8 … 56). -/
+theorem slide_window_fingerprint' (bs : Bytes) :
+    (bs.foldl (slide (Tables.mk' 6 poly)) (reset (Tables.mk' 6 poly))).hash
+      = hashBlock poly (bs.drop (bs.length - 64)) := by
+  obtain ⟨h0, hw0⟩ := inv_reset hp
+  obtain ⟨h1, h2⟩ := inv_fold hp hlo hd bs _ h0
+  rw [h1.2.2, h2, hw0, List.drop_append, List.drop_replicate, List.length_replicate,
+    hashBlock_zeros poly hp]
+
+end
+
+/-- **T1.** The table-driven rolling hash equals the direct remainder computation over the most recent
+64 bytes (all bytes, if fewer than 64 were fed). -/
+theorem slide_window_fingerprint (poly : UInt64) (hlo : 8 ≤ degree poly) (hhi : degree poly ≤ 55)
+    (bs : Bytes) :
+    let t := Tables.mk' 6 poly
+    (bs.foldl (slide t) (reset t)).hash = hashBlock poly (bs.drop (bs.length - 64)) := by
+  have hp : poly ≠ 0 := by
+    intro h; subst h; simp [degree] at hlo
+  have hdeg := degree_poly hp
+  rw [hdeg] at hlo hhi
+  exact slide_window_fingerprint' hp (by omega) (by omega) bs
 
 end Rustic.Rabin
